@@ -335,6 +335,53 @@ def h_secret_forms(ctx):
     return Outcome(f"secret:{'ok' if not vs else 'bad'}:{form}", vs, nontrivial=(alg, n, shape, form, direction))
 
 
+def h_plain_api_b64(ctx):
+    """A header that says "b64": false (with crit) handed to the plain joserfc.jws functions, in both directions: they may refuse it (they do not implement
+    RFC 7797); whatever they produce or return must be what an RFC 7797 peer reads or wrote."""
+    from joserfc import jws, rfc7797   # noqa: F401  (the RFC 7797 module is loaded, as in any application that uses it elsewhere)
+    alg, kind = ctx.choose("alg/key", [("HS256", "oct32"), ("ES256", "P-256"), ("EdDSA", "Ed25519")])
+    shape = ctx.choose("serialization", ["compact", "flattened", "general"])
+    given = ctx.choose("allow_list_given_as", ["algorithms", "a registry made for the call", "nothing (defaults)"])
+    direction = ctx.choose("direction", ["joserfc produces", "joserfc consumes a peer's token"])
+    payload = b"hello-World_7"
+    jwk = scen.key(kind)
+    hdr = {"alg": alg, "b64": False, "crit": ["b64"]}
+    if given == "nothing (defaults)" and alg not in scen.JWS_RECOMMENDED:
+        return Outcome("n/a", [], nontrivial=None)
+    kw = {} if given.startswith("nothing") else ({"algorithms": [alg]} if given == "algorithms" else {"registry": jws.JWSRegistry(algorithms=[alg])})
+    pub = jwk if jwk["kty"] == "oct" else rjwk.public_of(jwk)
+    vs = []
+    what = f"{alg} {shape}, allow-list as {given}; {direction}"
+    if direction == "joserfc produces":
+        key = A.jkey(jwk, "dict")
+        if shape == "compact":
+            r = call(jws.serialize_compact, dict(hdr), payload, key, **kw)
+        else:
+            member = {"protected": dict(hdr)}
+            r = call(jws.serialize_json, member if shape == "flattened" else [member], payload, key, **kw)
+        if r.ok:
+            try:
+                got = (rjws.verify_compact(r.value, pub) if shape == "compact" else rjws.verify_json(json.loads(json.dumps(r.value)), pub))[1]
+                if got != payload:
+                    vs.append(viol("the plain JWS functions emit a b64=false token whose payload an RFC 7797 peer reads as other octets", f"{what}: {payload!r} -> {got!r}"))
+            except RefError as e:
+                vs.append(viol("the plain JWS functions emit a b64=false token that an RFC 7797 peer cannot verify", f"{what}: {e!r}"))
+        return Outcome(f"plain-b64:produce:{'produced' if r.ok else 'refused'}", vs, nontrivial=(alg, shape, given, direction))
+    seg = b64.enc(rjws.hdr_json(hdr).encode())
+    sig = b64.enc(jws_sign(alg, jwk, rjws.signing_input(seg, payload, False)))
+    if shape == "compact":
+        tok = seg + "." + payload.decode() + "." + sig
+    elif shape == "flattened":
+        tok = {"protected": seg, "payload": payload.decode(), "signature": sig}
+    else:
+        tok = {"payload": payload.decode(), "signatures": [{"protected": seg, "signature": sig}]}
+    key = A.jkey(jwk, "dict", private=(jwk["kty"] == "oct"))
+    r = call(lambda: bytes((jws.deserialize_compact(tok, key, **kw) if shape == "compact" else jws.deserialize_json(copy.deepcopy(tok), key, **kw)).payload))
+    if r.ok and r.value != payload:
+        vs.append(viol("the plain JWS functions return other octets than the peer signed for a b64=false token", f"{what}: {payload!r} -> {r.value!r}"))
+    return Outcome(f"plain-b64:consume:{'returned' if r.ok else 'refused'}", vs, nontrivial=(alg, shape, given, direction))
+
+
 def h_long(ctx):
     """Both directions with payloads around 64 KiB and its multiples."""
     if ctx.choose("direction", ["joserfc-to-ref", "ref-to-joserfc"]) == "joserfc-to-ref":
@@ -446,6 +493,7 @@ PARTS = [
     _pms, _pne,
     Part("thread-schedules", h_threads, bound={"quick": 1, "thorough": 2}, split_depth=3, budget={"quick": 2000, "thorough": 3000}, engine="E3"),
     Part("long-payloads", h_long, split_depth=2),
+    Part("b64-false-headers-through-the-plain-functions", h_plain_api_b64, split_depth=2),
     Part("hmac-secrets-in-every-form", h_secret_forms, split_depth=2),
     Part("headers-that-compare-equal-signed-in-sequence", h_twin_headers, split_depth=2),
     Part("ref-to-joserfc", h_from_ref, split_depth=2, budget={"quick": 1200, "thorough": 1500}),
